@@ -544,7 +544,9 @@ def r_guard(prog, tier):
             if n.kind == 'stmt':
                 for sub in walk_own(n.ast):
                     if isinstance(sub, ast.Call) and (prog.callee(sub, f) == ('treeoutput', 'write_brackets_subtree')
-                                                      or unparse(sub.func) == '%s.write' % f.params[1]):
+                                                      or unparse(sub.func) == '%s.write' % f.params[1]
+                                                      or (unparse(sub.func) == 'print' and any(
+                                                          k_.arg == 'file' and unparse(k_.value) == f.params[1] for k_ in sub.keywords))):
                         outs.append((n, sub))
         if not outs:
             raise Unrecognised('treeoutput.brackets writes nothing')
@@ -817,6 +819,22 @@ def r_guard(prog, tier):
                            if verdict is False else 'a presence test exists but its relation to this read is not recognised'),
                           construct='bin-head', line=n.lineno))
 
+    def _sec_sentence():
+        # the sentence an oracle returns pairs every word with its POS tag (the token's label)
+        for nm_ in ('topdown', 'inorder', 'gap'):
+            g_ = prog.func('transitions', nm_, required=False)
+            if g_ is None:
+                continue
+            for x_ in walk_own(g_.node):
+                if isinstance(x_, ast.Tuple) and len(x_.elts) == 2 and all(
+                        isinstance(e_, ast.Subscript) and isinstance(e_.value, ast.Attribute) and e_.value.attr == 'data'
+                        and const_str(e_.slice) is not None for e_ in x_.elts) and const_str(x_.elts[0].slice) == 'word':
+                    k2_ = const_str(x_.elts[1].slice)
+                    obs.append(Ob('R-GUARD/SENTENCE', g_.fq, 'the sentence pairs each word with its POS tag: `%s`' % unparse(x_)[:60],
+                                  k2_ == 'label', 'word and label' if k2_ == 'label' else
+                                  'the word is paired with the field %r, the POS tag of a token is its label' % k2_,
+                                  construct='sentence-pair:' + nm_, line=x_.lineno, nontrivial=False))
+
     def _sec_plain():
         # plain transition writer: pos option selects the second component
         f = prog.func('transitionoutput', 'plain')
@@ -829,16 +847,21 @@ def r_guard(prog, tier):
                         names = [unparse(x) for x in sub.generators[0].target.elts]
                         used = [x.id for x in ast.walk(sub.elt) if isinstance(x, ast.Name)]
                         facts = [x[0] for x in facts_at(cfg, n.id)]
-                        pol = ('haskey', f.kwarg, 'pos', True) in facts
+                        pol = True if ('haskey', f.kwarg, 'pos', True) in facts else (
+                            False if ('haskey', f.kwarg, 'pos', False) in facts else None)
                         idx = [names.index(u) for u in used if u in names]
-                        sel[pol] = idx
-        ok = True if (sel.get(True) == [1] and sel.get(False) == [0]) else (False if (sel.get(True) == [0] or sel.get(False) == [1]) else None)
+                        if pol is None:
+                            sel['?'] = idx          # chosen by something this rule does not read (an options object, a flag)
+                        else:
+                            sel[pol] = idx
+        ok = True if (sel.get(True) == [1] and sel.get(False) == [0]) else (
+            False if ('?' not in sel and (sel.get(True) == [0] or sel.get(False) == [1])) else None)
         obs.append(Ob('R-GUARD/PLAIN', f.fq, 'the sentence written is the words, or the POS tags with the pos option', ok,
                       'component 1 under `pos`, component 0 otherwise' if ok else 'selection %s' % sel,
                       construct='plain-pos', line=f.node.lineno))
 
     for nm_, fn_ in (('BRACKETS', _sec_brackets), ('LOPAR', _sec_lopar), ('GAP', _sec_gap), ('TOPDOWN', _sec_topdown),
-                     ('BINARIZE', _sec_binarize), ('PLAIN', _sec_plain)):
+                     ('BINARIZE', _sec_binarize), ('PLAIN', _sec_plain), ('SENTENCE', _sec_sentence)):
         try:
             fn_()
         except Unrecognised as ex_:
